@@ -150,6 +150,17 @@ pub const COMMAND_ARGV_MAX: usize = 16;
 
 /// Tokenise one request line (without its LF): command word followed by the parameters.
 pub fn tokenize(raw_line: &[u8]) -> Result<Vec<Vec<u8>>, TokError> {
+    tokenize_limited(raw_line, COMMAND_ARGV_MAX)
+}
+
+/// The same without MPD's limit on the number of arguments (a compile-time constant of the server, not
+/// part of the protocol grammar): used where a property speaks about WHICH arguments are sent for a
+/// list of any length, e.g. `tagtypes enable` with more than 15 tags.
+pub fn tokenize_any_count(raw_line: &[u8]) -> Result<Vec<Vec<u8>>, TokError> {
+    tokenize_limited(raw_line, usize::MAX)
+}
+
+fn tokenize_limited(raw_line: &[u8], max_args: usize) -> Result<Vec<Vec<u8>>, TokError> {
     let line = c_line(raw_line);
     let mut t = Tok { s: line, i: 0 };
     let mut out = Vec::new();
@@ -159,7 +170,7 @@ pub fn tokenize(raw_line: &[u8]) -> Result<Vec<Vec<u8>>, TokError> {
     }
     loop {
         // `Request args(argv, 0)` excludes the command name; the check precedes NextParam
-        if out.len() - 1 == COMMAND_ARGV_MAX {
+        if out.len() - 1 == max_args {
             return Err(TokError::TooManyArguments);
         }
         match t.next_param()? {
